@@ -4,10 +4,10 @@
    DataRow::~DataRow / DataTable::pvDeallocateFreeRaws / pvAllocateRaw / pvDestroyRaws on every run and whose extracted
    code is replayed against event traces of the real DataTable. *)
 From Coq Require Import List Arith Bool Permutation.
-From C19 Require Import Treiber TreiberInv TreiberThms TreiberRace TreiberLive TreiberVariant TreiberExact TreiberBoundary TreiberRows TreiberTables FreeListRefine PoolAssumptions RawPoolSize FreeListSteps TreiberCreate TreiberExamples.
+From C19 Require Import Treiber TreiberInv TreiberThms TreiberRace TreiberLive TreiberVariant TreiberExact TreiberBoundary TreiberRows TreiberTables FreeListRefine PoolAssumptions RawPoolSize FreeListSteps TreiberCreate TableOpsRefine TreiberExamples.
 From Coq Require Import ZArith.
 From MomoCommon Require Import GenPrelude.
-From C19 Require FreeListPrims Gen_DataRow Gen_FreeListOwner Gen_MemPoolConst Gen_RawPool.
+From C19 Require FreeListPrims Gen_DataRow Gen_FreeListOwner Gen_MemPoolConst Gen_RawPool Gen_DataRowOps Gen_TableSwap Gen_TableCrew.
 Import ListNotations.
 
 (* The 16-clause invariant holds in every state reachable under ANY schedule. *)
@@ -553,6 +553,46 @@ Theorem C19_failed_newrow_while_a_destructor_runs_example :
     shared (lbase (cl cs)) = [0] /\ status (lbase (cl cs)) 1 = Detached /\ gen (lbase (cl cs)) 1 = 1 /\ pending cs = None.
 Proof. exact ex_failed_newrow_while_a_destructor_runs. Qed.
 Print Assumptions C19_failed_newrow_while_a_destructor_runs_example.
+
+(* ---- DataRow::Swap and DataRow(DataRow&&) are now the cxx2coq translations (Gen_DataRowOps.v) INSIDE the Row-object layer
+   (TreiberRows.stepl: LSwap = swap_objs, LMoveCtor = movector_objs): the generated Swap exchanges buffer AND list pointer
+   (wave-2 seed a / seeded C19-c breaks this lemma), the generated move constructor nulls both in the source (M11, N3) *)
+Theorem C19_generated_row_swap_is_model_swap :
+  forall a b, o_live a = true -> o_live b = true -> swap_objs a b = (b, a).
+Proof. exact swap_objs_spec. Qed.
+Print Assumptions C19_generated_row_swap_is_model_swap.
+
+Theorem C19_generated_row_move_ctor_is_model_step :
+  forall src, o_live src = true -> movector_objs src = (mkObj true (o_raw src) (o_fl src), mkObj true None false).
+Proof. exact movector_objs_spec. Qed.
+Print Assumptions C19_generated_row_move_ctor_is_model_step.
+
+(* ---- DataTable::Swap / DataTable(DataTable&&) / Crew(Crew&&) translated (Gen_TableSwap.v, Gen_TableCrew.v): the crew (list head) and
+   the raw pool travel together, and TSwap / TMoveCtor of the table-object layer are exactly these functions *)
+Theorem C19_generated_table_swap_keeps_crew_and_pool_together :
+  forall c1 r1 p1 i1 c2 r2 p2 i2, Gen_TableSwap.Swap c1 r1 p1 i1 c2 r2 p2 i2 = (c2, r2, p2, i2, c1, r1, p1, i1).
+Proof. exact generated_table_swap_keeps_crew_and_pool_together. Qed.
+Print Assumptions C19_generated_table_swap_keeps_crew_and_pool_together.
+
+Theorem C19_TSwap_is_generated_swap :
+  forall ts t1 t2 ts' r1 p1 i1 r2 p2 i2, t1 <> t2 -> stept ts (TSwap t1 t2) = Some ts' ->
+  let '(c1', _, _, _, c2', _, _, _) :=
+    Gen_TableSwap.Swap (enct (tab ts t1)) r1 p1 i1 (enct (tab ts t2)) r2 p2 i2 in
+  tab ts' t1 = dect c1' /\ tab ts' t2 = dect c2' /\ (forall t, t <> t1 -> t <> t2 -> tab ts' t = tab ts t) /\ tl ts' = tl ts.
+Proof. exact TSwap_is_generated_swap. Qed.
+Print Assumptions C19_TSwap_is_generated_swap.
+
+Theorem C19_TMoveCtor_is_generated_move :
+  forall ts t' t ts', stept ts (TMoveCtor t' t) = Some ts' ->
+  let '(nw, old) := Gen_TableCrew.MoveCtor 0%Z (enct (tab ts t)) in
+  tab ts' t' = dect nw /\ tab ts' t = dect old /\ (forall x, x <> t' -> x <> t -> tab ts' x = tab ts x) /\ tl ts' = tl ts.
+Proof. exact TMoveCtor_is_generated_move. Qed.
+Print Assumptions C19_TMoveCtor_is_generated_move.
+
+Theorem C19_generated_table_move_takes_crew_and_pool :
+  forall c r p i a b c0 d0, Gen_TableSwap.MoveCtor a b c0 d0 c r p i = (c, r, p, i).
+Proof. exact generated_table_move_takes_crew_and_pool. Qed.
+Print Assumptions C19_generated_table_move_takes_crew_and_pool.
 
 (* Non-vacuity: a 3-thread schedule with a genuinely failed CAS ... *)
 Theorem C19_nonvacuous_failed_cas :
